@@ -1,14 +1,18 @@
 """C18 - prime-field arithmetic (fp, primes, SpVecFP) matches arithmetic modulo p."""
 from lib import engine
 from lib.core import tier
-from units import k19_fp, k22_spvecfp
+from units import k19_fp, k22_spvecfp, k22b_spvecfp_plus
 
 LEVEL = "other"
 EXPLANATION = (
     "PROVED by CBMC over all 64-bit inputs: the paths of ext_gcd that return before the Euclid loop (a=0 or "
     "b=0) satisfy g>0, a*x+b*y=g (128-bit arithmetic), g|a, g|b; get_mult_inverse, verified AGAINST ext_gcd's "
     "contract (--replace-call-with-contract): rejects p<=0, consults ext_gcd exactly once on (a,p), throws iff the "
-    "gcd is not 1 and returns exactly the Bezout coefficient.  BOUNDED by CBMC (unwinding, not proof): the Euclid "
+    "gcd is not 1 and returns exactly the Bezout coefficient.  PROVED(operands with <= 2 entries, thorough 3; every "
+    "index, every value, every modulus 2 <= p < 2^15; E1 extraction of SpVecFP::operator+ with all five loops closed by loop contracts, invariants "
+    "quantified over the bounded entry range): for canonical operands the sum is canonical (indices strictly increasing, values in 1..p-1), every "
+    "entry carries (a_k + b_k) mod p at its index and every coordinate whose sum does not vanish mod p is present (K22b; a failing obligation is "
+    "refuted by a bounded plain-CBMC variant and replayed on the real template).  BOUNDED by CBMC (unwinding, not proof): the Euclid "
     "loop for |a|,|b|<=63 (thorough 127) incl. the repository's own assert; is_prime for p<256 (thorough 1024) "
     "against the quantified definition 'no divisor in [2,p)' under a floor-sqrt contract; SpVecFP through the C++ front end "
     "on a copy of the header with three declared mechanical edits (boost::get<I>( -> field access, boost::make_tuple( -> "
@@ -21,7 +25,7 @@ EXPLANATION = (
 
 
 def run(rep):
-    engine.run_units(rep, k19_fp.units(tier()) + k22_spvecfp.units(tier()), jobs=14)
+    engine.run_units(rep, k19_fp.units(tier()) + k22_spvecfp.units(tier()) + k22b_spvecfp_plus.units(tier()), jobs=14)
     engine.run_native(rep, "e3_fp", build_kwargs=dict(libs=()),
                       functions={"fp<long|cpp_int>::ext_gcd": "bounded(native exhaustive grid)",
                                  "fp<long|cpp_int>::get_mult_inverse": "bounded(native grid)",
